@@ -88,3 +88,13 @@ check("C20",
       "Exploration: for every generated history the mock records, for each request frame, the keyspace acknowledged on that connection when the frame arrived; every frame of a request issued while a use_keyspace promise was in force must find exactly that keyspace. Scenario templates place reconnects, node additions and keyspace changes inside windows in which a USE is still unanswered. Names: use_keyspace is refused locally iff the name is not 1..48 of [A-Za-z0-9_] and then nothing is sent; otherwise exactly USE name / USE \"name\" is sent.",
       "Trusted: the mock's keyspace bookkeeping (set when the SetKeyspace frame is written) and loopback TCP. Schedules are those tokio and the scripted delays produce (sampled, not enumerated); overlapping use_keyspace calls are outside the domain (documented unsupported).",
       "DESIGN.md 2/C20")
+check("C16",
+      "property-based testing with exhaustive enumeration: a compiled-in family of derived structs under every attribute; all permutations of the database field list x missing / extra / retyped field variants, plus generated subsets, null patterns and short UDT values; oracle = rule table from the macro documentation + round trip",
+      "Exploration with an exhaustive sub-space: for each of 19 UDT structs and 11 row structs, every permutation of the database's field/column list combined with each single missing field, one extra field at each position and each single retyped field is run through serialization and through type_check + deserialization; beyond that generated cases. Accept/reject must match the documented rules; accepted serializations must place each value at its like-named database position (reference decoder), deserializations must fill each Rust field from its like-named column with defaults exactly where the attributes say, and value -> bytes -> value is the identity.",
+      "Trusted: the rule table (my reading of scylla-macros/src/lib.rs; points it leaves open are allowed to go either way), hand-written descriptors of the compiled-in structs, reference codec. Field types are six fixed ones; generic / lifetime-carrying structs are not in the family.",
+      "DESIGN.md 2/C16")
+check("C17",
+      "exhaustive enumeration + stateful property-based testing: the full matrix Rust carrier type x CQL column type against a relation table derived from the data-type documentation; generated histories of binds with failures of every kind against the invariant 'a failed bind changes nothing'",
+      "Exhaustive over the matrix: every carrier (801 Rust types: each leaf type alone and inside the standard wrappers, nested two levels) is bound to and type-checked against every column type of the universe (20 natives, their one-level collections/tuples/UDTs/vectors and a second level; a third in the thorough tier), through SerializedValues::add_value, a whole-row bind, DeserializeValue::type_check and a row type_check. Mismatches must be refused and leave bytes and count untouched; documented-compatible pairs must be accepted and encode the witness. Histories: failures after partial writes, conversion overflows and the 65 536th value leave the value list byte-for-byte intact.",
+      "Trusted: vkit::carriers relation table (pairs the docs leave open are marked unspecified and may go either way), reference decoder. Serialization type checks are value-driven, so witnesses are fully populated; an empty collection or None is accepted for any element type by design. The 'failed bind is not sent' half at session level is covered by C09's request-frame check only for successful binds.",
+      "DESIGN.md 2/C17")
